@@ -49,7 +49,7 @@ def check(ctx):
         for (x, y) in exits:
             vs = util.variant_switch(body, dg, x)
             c = D.cmp_of_switch(body, dg, x)
-            iter_end = bool(vs) and C01._mentions(vs[0], lambda e: e[0] == "call" and e[1].endswith("::next")) and vs[1].get(0) == y
+            iter_end = bool(vs) and C01._mentions(vs[0], lambda e: e[0] == "call" and e[1].endswith("::next")) and vs[1].get(0, vs[2]) == y
             sentinel = bool(c) and (any(strip_casts(z) in (("gconst", "u32::MAX"), ("const", 0xFFFFFFFF)) for z in (c[1], c[2])))
             if not (iter_end or sentinel): good = False; why = f"exit bb{x}->bb{y} at {body.loc(x)} is neither the end of the listener list nor its sentinel"
         ctx.ob("R03.1", f"{k}|loop-ends-only-at-end-of-list", good and bool(exits), body.loc(h), "the fan-out loop is left only at the end of the live-listener list" if good else why)
@@ -63,7 +63,7 @@ def check(ctx):
             for x in body.loops[h]:
                 vs = util.variant_switch(body, dg, x)
                 if vs and C01._mentions(vs[0], lambda e, b=b: e[0] == "call" and len(e) > 3 and e[3] == b):
-                    tgt = vs[1].get(1) if not body.locals[vs[3]]["ty"].startswith("std::result::Result") else vs[1].get(0)
+                    tgt = vs[1].get(1, vs[2]) if not body.locals[vs[3]]["ty"].startswith("std::result::Result") else vs[1].get(0, vs[2])
                 t = body.term(x)
                 if t[0] == "Switch" and t[5] == "bool":
                     e = strip_casts(dg.expr(t[1]))
